@@ -8,11 +8,33 @@ open CC.Spec.LSeq (Op Out Params)
 
 /-- ledger effect of an operation: no fault raised, C-library ledger untouched, `live` moved by
 `plus - minus` -/
-structure Mem.Eff (m m' : Mem) (plus minus : Nat) : Prop where
+structure Mem.Eff (m m' : Mem) (plus minus : Nat) (ref : Nat := 0) : Prop where
   fault : m'.fault = m.fault
   libc : m'.libc = m.libc
   live : m'.live + minus = m.live + plus
   sched : m.sched = [] → m'.sched = []
+  nref : m'.nrefused = m.nrefused + ref
+
+theorem Mem.alloc_nrefused (m : Mem) :
+    m.alloc.2.nrefused = m.nrefused + (if m.alloc.1 then 0 else 1) := by
+  unfold Mem.alloc; split <;> simp
+theorem Mem.free_nrefused (m : Mem) : m.free.nrefused = m.nrefused := by unfold Mem.free; split <;> rfl
+theorem Mem.freeN_nrefused : ∀ (n : Nat) (m : Mem), (Mem.freeN n m).nrefused = m.nrefused
+  | 0, _ => rfl
+  | k + 1, m => by simp only [Mem.freeN]; rw [Mem.freeN_nrefused k, Mem.free_nrefused]
+theorem Mem.allocChain_nrefused : ∀ (k got : Nat) (m : Mem),
+    (Mem.allocChain k got m).2.nrefused = m.nrefused + (if (Mem.allocChain k got m).1 then 0 else 1)
+  | 0, _, m => by simp [Mem.allocChain]
+  | k + 1, got, m => by
+    have h := Mem.alloc_nrefused m
+    by_cases ha : m.alloc.1 = true
+    · have ih := Mem.allocChain_nrefused k (got + 1) m.alloc.2
+      simp only [Mem.allocChain, ha, Bool.not_true, Bool.false_eq_true, if_false]
+      rw [ih, h]; simp [ha]
+    · simp only [Mem.allocChain, ha, Bool.not_false, if_true, Bool.false_eq_true, if_false] at h ⊢
+      simp only [Bool.not_eq_true] at ha
+      simp only [ha, Bool.not_false, if_true, Bool.false_eq_true, if_false, Mem.freeN_nrefused] at h ⊢
+      exact h
 
 theorem Mem.free_sched (m : Mem) : m.free.sched = m.sched := by unfold Mem.free; split <;> rfl
 theorem Mem.freeN_sched : ∀ (n : Nat) (m : Mem), (Mem.freeN n m).sched = m.sched
@@ -26,23 +48,23 @@ theorem Mem.allocChain_nil : ∀ (k got : Nat) (m : Mem), m.sched = [] →
     simp only [Mem.allocChain, this.1, Bool.not_true, Bool.false_eq_true, if_false]
     exact Mem.allocChain_nil k (got + 1) m.alloc.2 this.2
 
-theorem Mem.Eff.rfl' (m : Mem) : Mem.Eff m m 0 0 := ⟨rfl, rfl, rfl, id⟩
+theorem Mem.Eff.rfl' (m : Mem) : Mem.Eff m m 0 0 := ⟨rfl, rfl, rfl, id, rfl⟩
 theorem Mem.eff_alloc_true (m : Mem) (h : m.alloc.1 = true) : Mem.Eff m m.alloc.2 1 0 := by
-  have := Mem.alloc_fst_true m h; exact ⟨this.2.1, this.2.2, by omega, fun hs => (Mem.alloc_nil m hs).2⟩
-theorem Mem.eff_alloc_false (m : Mem) (h : m.alloc.1 = false) : Mem.Eff m m.alloc.2 0 0 := by
-  have := Mem.alloc_fst_false m h; exact ⟨this.2.1, this.2.2, by omega, fun hs => (Mem.alloc_nil m hs).2⟩
+  have := Mem.alloc_fst_true m h; exact ⟨this.2.1, this.2.2, by omega, fun hs => (Mem.alloc_nil m hs).2, by rw [Mem.alloc_nrefused, h]; rfl⟩
+theorem Mem.eff_alloc_false (m : Mem) (h : m.alloc.1 = false) : Mem.Eff m m.alloc.2 0 0 1 := by
+  have := Mem.alloc_fst_false m h; exact ⟨this.2.1, this.2.2, by omega, fun hs => (Mem.alloc_nil m hs).2, by rw [Mem.alloc_nrefused, h]; rfl⟩
 theorem Mem.eff_free (m : Mem) (h : 0 < m.live) : Mem.Eff m m.free 0 1 := by
-  have := Mem.free_live m h; exact ⟨this.2.1, this.2.2, by omega, fun hs => by rw [Mem.free_sched]; exact hs⟩
+  have := Mem.free_live m h; exact ⟨this.2.1, this.2.2, by omega, fun hs => by rw [Mem.free_sched]; exact hs, Mem.free_nrefused m⟩
 theorem Mem.eff_freeN (m : Mem) (n : Nat) (h : n ≤ m.live) : Mem.Eff m (Mem.freeN n m) 0 n := by
-  have := Mem.freeN_live n m h; exact ⟨this.2.1, this.2.2, by omega, fun hs => by rw [Mem.freeN_sched]; exact hs⟩
+  have := Mem.freeN_live n m h; exact ⟨this.2.1, this.2.2, by omega, fun hs => by rw [Mem.freeN_sched]; exact hs, Mem.freeN_nrefused n m⟩
 theorem Mem.eff_allocChain_true (m : Mem) (k : Nat) (h : (m.allocChain k 0).1 = true) : Mem.Eff m (m.allocChain k 0).2 k 0 := by
-  have := Mem.allocChain_spec k 0 m (Nat.zero_le _); exact ⟨this.2.2.1, this.2.2.2, by have := this.1 h; omega, fun hs => (Mem.allocChain_nil k 0 m hs).2⟩
-theorem Mem.eff_allocChain_false (m : Mem) (k : Nat) (h : (m.allocChain k 0).1 = false) : Mem.Eff m (m.allocChain k 0).2 0 0 := by
-  have := Mem.allocChain_spec k 0 m (Nat.zero_le _); exact ⟨this.2.2.1, this.2.2.2, by have := this.2.1 h; omega, fun hs => (Mem.allocChain_nil k 0 m hs).2⟩
-theorem Mem.Eff.trans {m1 m2 m3 : Mem} {p1 q1 p2 q2 : Nat} (h1 : Mem.Eff m1 m2 p1 q1) (h2 : Mem.Eff m2 m3 p2 q2) :
-    Mem.Eff m1 m3 (p1 + p2) (q1 + q2) :=
+  have := Mem.allocChain_spec k 0 m (Nat.zero_le _); exact ⟨this.2.2.1, this.2.2.2, by have := this.1 h; omega, fun hs => (Mem.allocChain_nil k 0 m hs).2, by rw [Mem.allocChain_nrefused, h]; rfl⟩
+theorem Mem.eff_allocChain_false (m : Mem) (k : Nat) (h : (m.allocChain k 0).1 = false) : Mem.Eff m (m.allocChain k 0).2 0 0 1 := by
+  have := Mem.allocChain_spec k 0 m (Nat.zero_le _); exact ⟨this.2.2.1, this.2.2.2, by have := this.2.1 h; omega, fun hs => (Mem.allocChain_nil k 0 m hs).2, by rw [Mem.allocChain_nrefused, h]; rfl⟩
+theorem Mem.Eff.trans {m1 m2 m3 : Mem} {p1 q1 p2 q2 r1 r2 : Nat} (h1 : Mem.Eff m1 m2 p1 q1 r1) (h2 : Mem.Eff m2 m3 p2 q2 r2) :
+    Mem.Eff m1 m3 (p1 + p2) (q1 + q2) (r1 + r2) :=
   ⟨by rw [h2.fault, h1.fault], by rw [h2.libc, h1.libc], by have := h1.live; have := h2.live; omega,
-   fun hs => h2.sched (h1.sched hs)⟩
+   fun hs => h2.sched (h1.sched hs), by rw [h2.nref, h1.nref]; omega⟩
 
 /-- what one step must satisfy with respect to the ideal step on `(a, b)` -/
 structure StepOk (dbl : Bool) (P : Params) (a b : List Nat) (op : Op) (m : Mem)
@@ -54,6 +76,7 @@ structure StepOk (dbl : Bool) (P : Params) (a b : List Nat) (op : Op) (m : Mem)
   libc : r.2.2.libc = m.libc
   ledger : r.2.2.live + (a.length + b.length) = m.live + (a'.length + b'.length)
   nosched : m.sched = [] → r.2.2.sched = [] ∧ r.1.st ≠ some .errAlloc
+  refused_iff : r.1.st = some .errAlloc ↔ m.nrefused < r.2.2.nrefused
 
 
 theorem StepOk.of {dbl : Bool} {P : Params} {a b : List Nat} {op : Op} {m : Mem} {r : Out × (Chain × Chain) × Mem}
@@ -61,11 +84,13 @@ theorem StepOk.of {dbl : Bool} {P : Params} {a b : List Nat} {op : Op} {m : Mem}
     (hr : r = (out, (ofList a', ofList b'), m'))
     (hat : out.st = some .errAlloc → a' = a ∧ b' = b ∧ out = { st := some .errAlloc })
     (href : out.st ≠ some .errAlloc → (out, (a', b')) = LSeq.step dbl P (a, b) op)
-    (eff : Mem.Eff m m' p q) (hcount : a.length + b.length + p = a'.length + b'.length + q)
-    (hna : m.sched = [] → out.st ≠ some .errAlloc) :
+    {ref : Nat} (eff : Mem.Eff m m' p q ref) (hcount : a.length + b.length + p = a'.length + b'.length + q)
+    (hna : m.sched = [] → out.st ≠ some .errAlloc)
+    (hri : out.st = some .errAlloc ↔ 0 < ref := by simp) :
     StepOk dbl P a b op m r a' b' := by
   subst hr
-  exact ⟨rfl, hat, href, eff.fault, eff.libc, by have := eff.live; simp only []; omega, fun hs => ⟨eff.sched hs, hna hs⟩⟩
+  exact ⟨rfl, hat, href, eff.fault, eff.libc, by have := eff.live; simp only []; omega, fun hs => ⟨eff.sched hs, hna hs⟩,
+    by simp only []; rw [eff.nref, hri]; omega⟩
 
 namespace DList
 
@@ -215,17 +240,17 @@ theorem step_ok (P : Params) (a b : List Nat) (m : Mem) (hlive : a.length + b.le
         (by intro _; simp [LSeq.step, LSeq.filterMut, ha]) (Mem.eff_freeN m _ (by omega)) (by omega) (by intro _; simp)⟩
   | .getFirst => ⟨a, b, StepOk.of { st := some (LSeq.getFirst a).1, val := (LSeq.getFirst a).2 } _ _ m 0 0
         (by simp [step, getFirst_ofList]) (by cases a <;> simp [LSeq.getFirst])
-        (by intro _; simp [LSeq.step]) (Mem.Eff.rfl' m) rfl (by intro _; cases a <;> simp [LSeq.getFirst])⟩
+        (by intro _; simp [LSeq.step]) (Mem.Eff.rfl' m) rfl (by intro _; cases a <;> simp [LSeq.getFirst]) (by cases a <;> simp [LSeq.getFirst])⟩
   | .getLast => ⟨a, b, StepOk.of { st := some (LSeq.getLast a).1, val := (LSeq.getLast a).2 } _ _ m 0 0
         (by simp [step, getLast_ofList]) (by by_cases h : a = [] <;> simp [LSeq.getLast, h])
-        (by intro _; simp [LSeq.step]) (Mem.Eff.rfl' m) rfl (by intro _; by_cases h : a = [] <;> simp [LSeq.getLast, h])⟩
+        (by intro _; simp [LSeq.step]) (Mem.Eff.rfl' m) rfl (by intro _; by_cases h : a = [] <;> simp [LSeq.getLast, h]) (by by_cases h : a = [] <;> simp [LSeq.getLast, h])⟩
   | .getAt i => ⟨a, b, StepOk.of { st := some (LSeq.getAt a i).1, val := (LSeq.getAt a i).2 } _ _ m 0 0
         (by simp [step, getAt_ofList]) (by by_cases h : i < a.length <;> simp [LSeq.getAt, h])
-        (by intro _; simp [LSeq.step]) (Mem.Eff.rfl' m) rfl (by intro _; by_cases h : i < a.length <;> simp [LSeq.getAt, h])⟩
+        (by intro _; simp [LSeq.step]) (Mem.Eff.rfl' m) rfl (by intro _; by_cases h : i < a.length <;> simp [LSeq.getAt, h]) (by by_cases h : i < a.length <;> simp [LSeq.getAt, h])⟩
   | .indexOf x => ⟨a, b, StepOk.of { st := some (LSeq.indexOf P.cmp a x).1, val := (LSeq.indexOf P.cmp a x).2 } _ _ m 0 0
         (by simp [step, indexOf_ofList])
         (by simp only [LSeq.indexOf]; cases a.findIdx? fun y => P.cmp y x == 0 <;> simp)
-        (by intro _; simp [LSeq.step]) (Mem.Eff.rfl' m) rfl (by intro _; simp only [LSeq.indexOf]; cases a.findIdx? fun y => P.cmp y x == 0 <;> simp)⟩
+        (by intro _; simp [LSeq.step]) (Mem.Eff.rfl' m) rfl (by intro _; simp only [LSeq.indexOf]; cases a.findIdx? fun y => P.cmp y x == 0 <;> simp) (by simp only [LSeq.indexOf]; cases a.findIdx? fun y => P.cmp y x == 0 <;> simp)⟩
   | .contains x => ⟨a, b, StepOk.of { val := some (LSeq.contains a x) } _ _ m 0 0
         (by simp [step, contains_ofList]) (by simp) (by intro _; simp [LSeq.step]) (Mem.Eff.rfl' m) rfl (by intro _; simp)⟩
   | .containsValue x => ⟨a, b, StepOk.of { val := some (LSeq.containsValue P.cmp a x) } _ _ m 0 0
